@@ -46,12 +46,19 @@ def main():
         rest = args[:i] + args[i + 2:]
         only = [a for a in rest if not a.startswith('--')] or sorted(
             x for x in os.listdir(os.path.join(VERIF, 'seeded')) if os.path.isfile(os.path.join(VERIF, 'seeded', x, 'patch.diff')))
+        only = [i for i in only if not json.load(open(os.path.join(VERIF, 'seeded', i, 'meta.json'))).get('retired')]
         flags = [a for a in rest if a.startswith('--') and a != '--scratch']
         procs = [subprocess.Popen([sys.executable, os.path.abspath(__file__), '--scratch'] + flags + only[k::n])
                  for k in range(n) if only[k::n]]
         sys.exit(max(p.wait() for p in procs))
     every = '--all' in args
     only = [a for a in args if not a.startswith('--')]
+    def retired(i):
+        try:
+            return bool(json.load(open(os.path.join(VERIF, 'seeded', i, 'meta.json'))).get('retired'))
+        except Exception:
+            return False
+    only = [i for i in only if not retired(i)]
     scratch = tempfile.mkdtemp(prefix='seeded_run_')
     env = dict(os.environ, VERIF_EVIDENCE_DIR=os.path.join(scratch, 'evidence'),
                VERIF_REPLAY_DIR=os.path.join(scratch, 'replays'))
